@@ -19,7 +19,7 @@ func init() {
 		Assumptions: []string{"reference bytes from ref.EncTop; buffers are owned by the harness so aliasing of the result with the buffer is expected when capacity suffices"},
 		Work:        c06Work,
 		Post: func(a *mc.Agg) []string {
-			return needDims(a, "buf:nil", "buf:prefix-exact", "buf:prefix-spare", "buf:prev", "buf:prev[:0]", "conv:value", "conv:pointer", "conv:reused-variable", "shape:direct-iface", "encodes-to-nothing", "capacity-sweep")
+			return needDims(a, "buf:nil", "buf:prefix-exact", "buf:prefix-spare", "buf:prev", "buf:prev[:0]", "conv:value", "conv:pointer", "conv:reused-variable", "shape:direct-iface", "encodes-to-nothing", "capacity-sweep", "aliased-payload")
 		},
 	})
 }
@@ -150,6 +150,76 @@ func c06Work(c *mc.Ctx) {
 		}
 	}
 	c06CapSweep(c, &unit)
+	if c.Owns(unit + 1) {
+		c06AliasedPayload(c)
+	}
+}
+
+// c06AliasedPayload: in-place re-encoding. The destination is the previous result re-sliced to
+// length 0, and the value's []byte / string-free payloads are views INTO that previous result (only
+// the header changes, to one of the same or a smaller width): the result must still be the prefix
+// followed by the encoding of the value as it was when Marshal was called.
+func c06AliasedPayload(c *mc.Ctx) {
+	type msg struct {
+		A int    `plenc:"1"`
+		P []byte `plenc:"2"`
+		Q []byte `plenc:"3"`
+		Z int    `plenc:"9"`
+	}
+	type outer struct {
+		H int `plenc:"1"`
+		M msg `plenc:"2"`
+	}
+	if !c.Begin(`{"set":"aliased-payload"}`) {
+		return
+	}
+	c.AddEvals(-1)
+	c.Dim("aliased-payload")
+	for _, l := range []int{1, 5, 126, 127, 128, 300} {
+		for _, as := range [][2]int{{1, 2}, {300, 301}, {300, 2}, {70000, 3}} {
+			for _, nested := range []bool{false, true} {
+				for _, keep := range []int{0} { // (a kept prefix would shift the new headers onto the old payload: not claimed)
+					c.AddEvals(1)
+					c.Count("states", 1)
+					c.AddNonTrivial(1)
+					sig := "aliased-payload|"
+					c.Guard(sig, func() {
+						p := NewPlenc(ref.Cfg{})
+						pay := bytes.Repeat([]byte{0xA5}, l)
+						pay2 := bytes.Repeat([]byte{0x3C}, l/2+1)
+						marshal := func(buf []byte, m msg) ([]byte, error) {
+							if nested {
+								return p.Marshal(buf, &outer{H: 4, M: m})
+							}
+							return p.Marshal(buf, &m)
+						}
+						prev, err := marshal(nil, msg{A: as[0], P: pay, Q: pay2, Z: 1})
+						if err != nil {
+							c.Violation(sig+"marshal-error", err.Error())
+							return
+						}
+						i1, i2 := bytes.Index(prev, pay), bytes.Index(prev, pay2)
+						if i1 < 0 || i2 < 0 {
+							c.MachineErr("C06 aliased payload: payload not found in its own encoding")
+							return
+						}
+						if keep > i1 {
+							return
+						}
+						v2 := msg{A: as[1], P: prev[i1 : i1+len(pay)], Q: prev[i2 : i2+len(pay2)], Z: 2}
+						want, _ := marshal(append([]byte(nil), prev[:keep]...), msg{A: as[1], P: pay, Q: pay2, Z: 2})
+						got, err := marshal(prev[:keep], v2)
+						c.Ops(3)
+						if err != nil || !bytes.Equal(got, want) {
+							c.Violation(sig+"result-depends-on-destination-sharing-memory-with-value", fmt.Sprintf("payload %d bytes, A %d -> %d, nested=%v, %d prefix bytes kept: got %s want %s (%v)", l, as[0], as[1], nested, keep, trunc(hx(got)), trunc(hx(want)), err))
+							return
+						}
+						c.Outcome("ok")
+					})
+				}
+			}
+		}
+	}
 }
 
 // c06CapSweep: the capacity dimension. For every shape and length of the size sweep (DESIGN §6)
